@@ -3116,6 +3116,18 @@ def update_working_tree(
             if not validate_path(path, validate_path_element):
                 continue
 
+            try:
+                verify_leading_dirs(path, [], repo_path)
+            except InvalidPathError:
+                # A leading directory has become a symlink: what the path
+                # names now is not the tracked file and may lie outside the
+                # work tree. Leave it alone and only forget the entry.
+                try:
+                    del index[path]
+                except KeyError:
+                    pass
+                continue
+
             full_path = _tree_to_fs_path(repo_path, path, tree_encoding)
             try:
                 delete_stat: os.stat_result | None = os.lstat(full_path)
